@@ -88,6 +88,10 @@ RULE = (
     'not one (conditions, availabilities), constants needing all their digits; formulas without data variables (both evaluators, with and '
     'without a database); sum over the rows; sequences of numbering operations (1-3 formulas numbered side by side, 1-3 parts evaluated alone, '
     'formulas evaluated again; a formula outside the numbering evaluated in between); '
+    'equal plain Python literals (bool / int / float spellings of one value) written in several places of one formula - conditions and terms of a '
+    'ConditionalSum, Elem branches, bioMultSum terms, logit utilities and availabilities, operands of binary operators - each occurrence a separate '
+    'node of the abstract DAG (the known engine finding F-E1 is matched only when the CALLER shares one condition object; on the real signature '
+    'conditions written separately must have distinct ids); '
     'non-trivial = depth >= 2 with >= 1 free parameter and >= 1 data variable; a sequence is non-trivial with >= 1 part evaluated alone and >= 1 parameter; '
     'round 3: formulas with draws (1-3 parameters, 1-3 variables, 1-3 draw variables with user-supplied dyadic tables, R in {1,2,3,5}, 1-3 rows or 1-3 '
     'individuals of 1-3 rows with labels != positions; shapes mc / log(mc) / mc beside an outside formula / two mc / one mc under two parents; non-trivial '
@@ -327,6 +331,12 @@ def check_case(ctx, res, case, label='gen', obs=None):
             # structural comparison: the formula each signature denotes (children resolved by id from the last line),
             # the number of distinct ids (sharing) and "every child is defined before its parent"; the emission order
             # of sibling sub-formulas is not part of the contract (LogLogit lists availabilities in their own dict order)
+            if not shared_condition(case):
+                for l in lines:
+                    if l['k'] == 'condSum' and len(set(l['c'][0::2])) < len(l['c'][0::2]):
+                        res.diverge('ConditionalSum conditions written separately (no object shared by the caller) are ONE node in the real '
+                                    'signature: DistinctCondNodes fails on the real text', small, 'distinct condition ids', l['c'][0::2], where=where)
+                        break
             real_c = _canon_sig([_strip(l) for l in lines])
             model_c = _canon_sig([_strip(l) for l in (_unjson(l) for l in emit.get('lines', []))])
             if real_c != model_c:
@@ -685,6 +695,122 @@ def py_stream(ctx, res, rng, n):
 
 
 # ----- sequences of operations on the numbering (persistent id manager, evaluation of a part alone, evaluation again) ---
+
+# ----------------------------------------------------------------------------- equal plain literals written in several places
+
+def gen_literal_case(rng):
+    """a formula in which plain Python literals of EQUAL value are written in several places (conditions of a ConditionalSum,
+    branches of an Elem, terms of a bioMultSum, availabilities / utilities of a logit, operands of binary operators).  Each
+    occurrence is a separate node of the abstract DAG (the caller shares nothing): the formula is inside the regular domain."""
+    base = G.gen_case(rng, n_ops=rng.randint(1, 3), kinds=['plus', 'times', 'minus', 'neg', 'max', 'exp'], n_rows=rng.randint(1, 3))
+    nodes = [dict(n) for n in base['nodes']]
+    leaves = [i for i, n in enumerate(nodes) if n['k'] in ('beta', 'var') and n.get('name') not in ('K', 'CH', 'AV1', 'AV2')]
+    pool = leaves + list(base['roots'])
+
+    def add(n):
+        nodes.append(n)
+        return len(nodes) - 1
+
+    class _Vars(dict):
+        # the generator prunes unused leaves: a data variable is (re)created on demand
+        def __missing__(self, name):
+            self[name] = add({'k': 'var', 'name': name})
+            return self[name]
+
+        def __contains__(self, name):
+            return name in base['columns']
+
+    var = _Vars({n['name']: i for i, n in enumerate(nodes) if n['k'] == 'var'})
+
+    def lit(v, pytype=None):
+        """one more occurrence of the literal v, written as bool / int / float"""
+        if pytype is None:
+            pytype = rng.choice(['bool', 'int', 'float']) if v in (0.0, 1.0) else rng.choice(['int', 'float']) if float(v).is_integer() else 'float'
+        return add({'k': 'num', 'v': float(v), 'raw': True, 'pytype': pytype})
+
+    def cmp_cond():
+        return add({'k': rng.choice(['gt', 'le', 'ne']), 'c': [rng.choice(pool), add({'k': 'num', 'v': G._dy(rng), 'raw': False})]})
+
+    shape = rng.choice(['condSum', 'condSum', 'condSum', 'elem', 'multSum', 'logLogit', 'binary'])
+    L = rng.choice([1.0, 1.0, 2.0, 0.5, -3.0, 0.0])
+    if shape == 'condSum':
+        m = rng.randint(2, 4)
+        truth = rng.choice([1.0, 1.0, 2.0, -1.0])
+        c = []
+        kinds = ['lit', 'lit'] + [rng.choice(['lit', 'zero', 'cmp', 'av']) for _ in range(m - 2)]
+        rng.shuffle(kinds)
+        for kd in kinds:
+            if kd == 'lit':
+                cond = lit(truth)
+            elif kd == 'zero':
+                cond = lit(0.0)
+            elif kd == 'av' and 'AV1' in var:
+                cond = add({'k': 'ne', 'c': [var['AV1'], add({'k': 'num', 'v': 0.0, 'raw': False})]})
+            else:
+                cond = cmp_cond()
+            term = rng.choice(pool) if rng.random() < 0.7 else lit(L)
+            c += [cond, term]
+        top = add({'k': 'condSum', 'c': c})
+    elif shape == 'elem':
+        keys = [-1, 2, 5]
+        rng.shuffle(keys)
+        branches = [lit(L), rng.choice(pool) if rng.random() < 0.5 else lit(L), lit(L)]
+        rng.shuffle(branches)
+        top = add({'k': 'elem', 'c': [var['K']] + branches, 'keys': keys})
+    elif shape == 'multSum':
+        terms = [lit(L), lit(L), rng.choice(pool)] + ([lit(L)] if rng.random() < 0.5 else [])
+        rng.shuffle(terms)
+        top = add({'k': 'multSum', 'c': terms})
+    elif shape == 'logLogit':
+        keys = [3, 7, 12]
+        rng.shuffle(keys)
+        utils = [rng.choice(pool), lit(L), lit(L)]
+        rng.shuffle(utils)
+        avs = [lit(1.0) for _ in keys]
+        top = add({'k': 'logLogit', 'keys': keys, 'full': False, 'c': [var['CH']] + utils + avs})
+    else:
+        a = add({'k': 'plus', 'c': [rng.choice(pool), lit(L)]})
+        b = add({'k': rng.choice(['minus', 'times', 'max']), 'c': [lit(L), rng.choice(pool)]})
+        g = add({'k': rng.choice(['gt', 'le', 'eq']), 'c': [rng.choice(pool), lit(L)]})
+        top = add({'k': 'multSum', 'c': [a, b, g, lit(L)]})
+    if rng.random() < 0.5:
+        # nested: the literal once more beside the operator
+        top = add({'k': 'plus', 'c': [top, lit(L)]})
+    case = {'nodes': nodes, 'roots': [top], 'columns': base['columns'], 'rows': base['rows'], 'dict': base.get('dict', {}), 'shape': shape}
+    return G.prune(case)
+
+
+def literal_stream(ctx, res, rng, n):
+    done = 0
+    for _ in range(4 * n):
+        case = gen_literal_case(rng)
+        try:
+            bv = G.beta_values(case)
+            for row in G.rows_of(case):
+                G.oracle(case, case['roots'][0], bv, row)
+        except G.Reject:
+            continue
+        res.tally('equal_literals:' + case.get('shape', '?'))
+        check_case(ctx, res, case, 'literals')
+        done += 1
+        if done >= n or len(res.violations) > 20:
+            break
+
+
+LITERAL_CORPUS = [
+    # ConditionalSum([(True, 6), (x1 > 0, 2), (True, 7)]) and the same with 1 / 1.0 / two zeros: 13 or 15, never 7
+    {'nodes': [{'k': 'var', 'name': 'x1'}, {'k': 'num', 'v': 1.0, 'raw': True, 'pytype': 'bool'}, {'k': 'num', 'v': 6.0, 'raw': True},
+               {'k': 'num', 'v': 0.0, 'raw': False}, {'k': 'gt', 'c': [0, 3]}, {'k': 'num', 'v': 2.0, 'raw': True},
+               {'k': 'num', 'v': 1.0, 'raw': True, 'pytype': 'bool'}, {'k': 'num', 'v': 7.0, 'raw': True},
+               {'k': 'condSum', 'c': [1, 2, 4, 5, 6, 7]}],
+     'roots': [8], 'columns': ['x1'], 'rows': [[1.0], [-1.0]], 'dict': {}},
+    {'nodes': [{'k': 'var', 'name': 'x1'}, {'k': 'num', 'v': 1.0, 'raw': True, 'pytype': 'int'}, {'k': 'num', 'v': 1.0, 'raw': True, 'pytype': 'float'},
+               {'k': 'num', 'v': 0.0, 'raw': True, 'pytype': 'int'}, {'k': 'num', 'v': 0.0, 'raw': True, 'pytype': 'bool'},
+               {'k': 'num', 'v': 4.0, 'raw': True}, {'k': 'num', 'v': 4.0, 'raw': True, 'pytype': 'float'},
+               {'k': 'condSum', 'c': [1, 0, 3, 5, 2, 6, 4, 0]}],
+     'roots': [7], 'columns': ['x1'], 'rows': [[3.0]], 'dict': {}},
+]
+
 
 SEQ_WHERE = 'expression evaluation in a persistent numbering (IdManager / create_function / BIOGEME)'
 
@@ -1138,9 +1264,13 @@ def seq_stream(ctx, res, rng, n):
 # ----- known engine findings (outside /repo) ---------------------------------------------------------
 
 def shared_condition(case):
-    for n in (case or {}).get('nodes', []):
+    """the CALLER passed one condition OBJECT to two terms of a ConditionalSum (engine finding F-E1).  A plain Python literal is not an
+    object the caller shares: the library wraps every occurrence in a node of its own, so equal literal conditions are distinct
+    nodes and such a formula must evaluate to its mathematical value"""
+    nodes = (case or {}).get('nodes', [])
+    for n in nodes:
         if n['k'] == 'condSum':
-            conds = n['c'][0::2]
+            conds = [c for c in n['c'][0::2] if not (nodes[c]['k'] == 'num' and nodes[c].get('raw'))]
             if len(set(conds)) < len(conds):
                 return True
     return False
@@ -1294,6 +1424,9 @@ def in_process_streams(ctx, res, rng):
         if len(res.violations) > 20:
             break
     focus_stream(ctx, res, rng, ctx.n(12, 120))
+    for c in LITERAL_CORPUS:
+        check_case(ctx, res, c, 'corpus')
+    literal_stream(ctx, res, rng, ctx.n(40, 500))
     seq_stream(ctx, res, rng, ctx.n(60, 800))
     py_stream(ctx, res, rng, ctx.n(150, 2000))
     for _ in range(ctx.n(6, 80)):
@@ -1338,6 +1471,10 @@ def _search_streams(ctx, r2, rng):
         check_case(ctx, r2, widen(rng, G.gen_case(rng)))
         if r2.violations:
             break
+    if not r2.violations:
+        for c in LITERAL_CORPUS:
+            check_case(ctx, r2, c, 'corpus')
+        literal_stream(ctx, r2, rng, 120)
     if not r2.violations:
         focus_stream(ctx, r2, rng, 40)
     if not r2.violations:
